@@ -1046,7 +1046,9 @@ class Node:
                     must_keep = True
                 elif isinstance(res, SkipBranch):
                     if res.and_self is False:
-                        remove_nodes = n.children
+                        # Keep the node itself, but remove all descendants
+                        n.remove_children()
+                        must_keep = True
                     else:
                         remove_nodes.append(n)
                 elif isinstance(res, StopTraversal):
